@@ -889,6 +889,59 @@ import collections as _collections
 _KEPT = _collections.deque()
 
 
+_ASCII_DELTA = {}
+
+
+def crc32_ascii_delta(n=10):
+    """A non-zero string of n octets, every octet below 0x20 (so XOR-ing it onto lower-case ASCII text gives ASCII text again),
+    whose XOR onto any n-octet window leaves the CRC-32 (and every other CRC with that polynomial) of the whole unchanged.
+    Found by Gaussian elimination over GF(2): CRC is affine, so the set of such strings is a linear space."""
+    import zlib
+    if n in _ASCII_DELTA:
+        return _ASCII_DELTA[n]
+    zero = zlib.crc32(bytes(n))
+    basis = []                               # (value image, combination as int over the free bits)
+    free = [(i, b) for i in range(n) for b in range(5)]
+    res = None
+    for j, (i, b) in enumerate(free):
+        v = bytearray(n)
+        v[i] = 1 << b
+        img, comb = zlib.crc32(bytes(v)) ^ zero, 1 << j
+        for bi, bc in basis:
+            if img ^ bi < img:
+                img, comb = img ^ bi, comb ^ bc
+        if img == 0:
+            res = comb
+            break
+        basis.append((img, comb))
+        basis.sort(reverse=True)
+    if res is None:
+        _ASCII_DELTA[n] = None
+        return None
+    d = bytearray(n)
+    for j, (i, b) in enumerate(free):
+        if (res >> j) & 1:
+            d[i] |= 1 << b
+    _ASCII_DELTA[n] = bytes(d)
+    return bytes(d)
+
+
+def crc32_text_twin(text):
+    """Another ASCII string of the same length with the same CRC-32 as `text` (lower-case letters / digits / punctuation from
+    0x60..0x7E in the changed window), or None."""
+    import zlib
+    b = text.encode() if isinstance(text, str) else bytes(text)
+    d = crc32_ascii_delta(10)
+    if d is None or len(b) < len(d):
+        return None
+    out = bytearray(b)
+    for i, x in enumerate(d):
+        out[i] ^= x
+    if zlib.crc32(bytes(out)) != zlib.crc32(b) or bytes(out) == b or any(c >= 0x80 for c in out):
+        return None
+    return bytes(out)
+
+
 _CONSTS = {}
 
 
